@@ -1,5 +1,9 @@
 package scen
 
+import "verif/harness/internal/behave"
+
+var trSrc = behave.TrSrc
+
 // Shared returns the helper packages of the scratch module (module-relative
 // path -> source).  They are written once per workspace and served to the
 // in-process type checker from memory.
@@ -74,6 +78,7 @@ type T struct{ A int }
 
 func Conv(i int) int { return i }
 `,
+		"tr/tr.go": trSrc,
 		"ext/other/ext.go": `package ext
 
 // A second package whose base name is also "ext".
